@@ -182,7 +182,11 @@ TOKENS = (list(SPECIALS) * 3 + ENTITIES * 2 +
           ["&#38;", "&#x26;", "&#60;", "&amp;amp;", "&amp;lt;", "&;", "&amp", "amp;", "&lt", "&apos", "&&", ";", "#",
            "]]>", "<![CDATA[", "<!--", "-->", "<?", "?>", "</r>", "<r>", "a=\"", "='", "\t", "\n", "\r", "\r\n",
            "\u0085", "\u2028", " ", "  ", "x", "AT", "T", "1", "\u00e9", "\u4e2d", "\ud7ff", "\ue000", "\ufffd",
-           "\U00010000", "\U0001F600", "\U0010FFFF", "%", "\\", "/"])
+           "\U00010000", "\U0001F600", "\U0010FFFF", "%", "\\", "/",
+           # characters that look like, or are often "normalised" to, one of the five specials or to nothing
+           "\u2018", "\u2019", "\u201c", "\u201d", "\u00ab", "\u00bb", "\u2039", "\u203a", "\uff06", "\uff1c", "\uff1e",
+           "\uff02", "\uff07", "\u00a0", "\u00ad", "\u200b", "\u200d", "\ufeff", "\ufdd0", "\ufffc", "\u2032", "\u02bc",
+           "\u0060", "\u00b4", "\u2026", "\u2013", "\u2014", "\u0085", "\u2029"])
 XML_CHAR = st.one_of(
     st.sampled_from("\t\n\r"),
     st.characters(min_codepoint=0x20, max_codepoint=0xD7FF),
